@@ -640,8 +640,8 @@ def precedence_diagnostics(ctx: Ctx) -> None:
 
 
 def findings_on_diagnostics(ctx: Ctx) -> None:
-    """The two known defects shown on diagnostics (so that the finding is about behaviour, not only
-    about an Options snapshot)."""
+    """The defects found by this check shown on diagnostics (so that a finding is about behaviour, not only
+    about an Options snapshot); (1) was repaired by 9b531e7 and must stay repaired."""
     d = os.path.join(ctx.tmp, "find")
     os.makedirs(os.path.join(d, "pk"), exist_ok=True)
     files = {"pk/__init__.py": "", "pk/lib.py": "from typing_extensions import deprecated\nclass C:\n    @deprecated('x')\n    def m(self) -> None: ...\n",
